@@ -5,9 +5,13 @@ DEDUCTIVE = []
 EXPLANATION = ("Four clauses, four mechanisms. Linking: a static resolver (rt/c20_link.py) generates one obligation per Name load, per attribute of an "
                "imported module and per intra-package call signature over every function and branch of every module and discharges it against "
                "the package's own AST and the installed dependencies (exhaustive over programs; counts in coverage.bounded.notes: "
-               "link_obligations / link_discharged; the one undischarged obligation is the recorded known finding). Frame: every function "
-               "verified deductively for another property carries the frame obligation 'stores never reach memory of an argument' "
-               "(aliasing roots tracked through views), plus run-time before/after comparison of all arguments. Determinism and layout/dtype "
+               "link_obligations / link_discharged; the one undischarged obligation is the recorded known finding). Frame: a static alias analysis "
+               "(rt/c20_frame.py) generates one obligation per in-place mutation site of every function (subscript stores, augmented "
+               "assignments, .sort/.append/..., del, out=) - the root object must be allocated inside the function, not a parameter or a NumPy "
+               "view / alias of one (documented in-place helpers _rdp_fixed/_grdp and the cost-cache parameter excepted, with their callers "
+               "checked to pass fresh objects); counts frame_obligations / frame_discharged. Every function verified deductively for another "
+               "property additionally carries the frame obligation with aliasing roots tracked through views; plus run-time before/after "
+               "comparison of all arguments. Determinism and layout/dtype "
                "independence: bounded metamorphic execution of ~75 public entry points on C / Fortran / strided-view / int64 / float64 variants.")
 LEVEL_TEXT = ("Static exhaustive link check (every name / module attribute / intra-package call signature in every code path) + bounded metamorphic "
               "execution for purity, determinism and layout/dtype independence. Layout and dtype independence is a statement about NumPy's "
